@@ -90,7 +90,7 @@ macro_rules! db_harness {
 //@ timeout: 1800
 //@ mem: 14
 //@ unwindset: mmap_append=170; memcmp.0=20
-//@ cbmc: --max-field-sensitivity-array-size 800
+//@ cbmc: --max-field-sensitivity-array-size 1100
 //@ encodes: EventStore::store_event, EventStore::new, mmap-append model (append order: payload, fence, marker; set_len; remap)
 //@ bounds: fresh store, one complete store of an arbitrary event, then a second store (which needs padding 7 / 0 and a file growth) killed at an arbitrary point 0..=8 of its persistent effects (padding payload halves, padding marker, set_len, event payload halves, event marker): afterwards the end marker is the old end, the aligned old end, or the complete new end; it never exceeds the file length; the first event is intact; the second is complete whenever the marker covers it; EventStore::new succeeds on the result and sees that end
 //@ outside: kills during remove/vanish and LMDB's own crash safety (assumed contract); page-cache reordering by the OS (writes are taken to reach the file in program order); more than one interrupted call
@@ -103,7 +103,7 @@ db_harness!(c13_crash_second_store_152_152, crash_in_second_store::<152, 152>())
 //@ timeout: 1800
 //@ mem: 14
 //@ unwindset: mmap_append=170; memcmp.0=20
-//@ cbmc: --max-field-sensitivity-array-size 800
+//@ cbmc: --max-field-sensitivity-array-size 1100
 //@ encodes: EventStore::new (creation: create, set_len, header initialisation), EventStore::store_event
 //@ bounds: EventStore::new on a path without a file, killed at an arbitrary point 0..=3 of its persistent effects (file created / sized / header written); then a new process opens the same path: it must succeed and present an empty store whose end marker is 8 (anything below 8 makes the next append overwrite the header) in a one-chunk file
 //@ assumes: as c13_crash_second_store
